@@ -1,6 +1,6 @@
 module verif
 
-go 1.15
+go 1.16
 
 require (
 	github.com/paulmach/orb v0.0.0
